@@ -259,6 +259,14 @@ def r9_1(ctx):
       order_ok &= seen["count"]
       seen["size"] = True
       continue
+    if isinstance(t, tuple) and t[:2] == ("mcall", "emplace_back") and t[2] == F("adj_") \
+        and len(t) == 5 and uncast(t[3]) == F("size_") and _is_int(t[4], 0):
+      # equivalent idiom for "add one row": adj_.emplace_back(size_, 0); the
+      # older rows still have to be widened by the all-rows loop
+      order_ok &= seen["count"] and seen["size"]
+      seen["rows"] = True
+      ctx.ok("S2:rows-resized", RC, _line(s), {"stmt": str(t), "idiom": "emplace_back(size_, 0)"})
+      continue
     if isinstance(t, tuple) and t[:3] == ("mcall", "resize", F("adj_")):
       ok = len(t) == 4 and uncast(t[3]) == F("num_nodes_")
       ctx.check(ok, "S2:rows-resized", RC, _line(s),
@@ -640,4 +648,8 @@ VARIANTS = [
                 "  return backward_reachability_->is_reachable(src->id(), dst->id());"),
                (_tg("typegraph.cc"), "is_reachable(this->id(),\n                                                     origin->where->id())",
                 "is_reachable(origin->where->id(),\n                                                     this->id())")]},
+    {"name": "seeded-C09-r2m1-lazy-widening", "rule": "R9.1", "patch": "seeded/C09-r2m1/patch.diff", "expect": "fire"},
+    {"name": "twin-new-row-by-emplace_back", "rule": "R9.1", "file": _tg("reachable.cc"), "expect": "silent",
+     "old": "  adj_.resize(num_nodes_);\n  for (int i = 0; i < num_nodes_; i++) {",
+     "new": "  adj_.emplace_back(size_, 0);\n  for (int i = 0; i < num_nodes_; i++) {"},
 ]
